@@ -107,7 +107,8 @@ def wakeEvents (d : D) (woken : List Nat) (snap : List Nat := []) : D × List (N
       else (d, evs)) pass1
 
 def evLine (head : String) (evs : List (Nat × String)) : String :=
-  withEvents head ((sortBy (fun e => (e.1, 0)) evs).map (·.2))
+  -- canonical order: by subscriber, rejected follow-ups last, otherwise in the order they happened
+  withEvents head ((sortBy (fun e => (e.1, if e.2.endsWith "=bad" then 1 else 0)) evs).map (·.2))
 
 /-- a queue-wide step (publish, close, kick): returns the new driver state and the printed line -/
 def globalOp (d : D) (op : Op) (head : State → String) : D × String :=
